@@ -3,7 +3,7 @@
    _lower table of each package): what the Properties files quote. *)
 From Strcase Require Import Base Utf8 Utf8Facts Spec SpecIndex Impl Impl2 Impl3 Impl4 Impl5 Refine_Compare Refine_Prefix Refine_Suffix Refine_Count
   Refine_RuneCase Utf8Enc Refine_RuneCase2 Refine_Byte Refine_Rune FoldFacts2
-  Impl6 Impl7 Refine_RK Refine_Index Refine_Index2 Refine_Index3 Refine_RKRev Refine_Last Refine_Any
+  Impl6 Impl7 Refine_RK Refine_Index Refine_Index2 Refine_Index3 Refine_RKRev Refine_Last Refine_Any Refine_CountByte
   Fold FoldFacts FoldTables FoldFacts121.
 
 Theorem width_facts121 : width_facts fold121.
@@ -176,6 +176,15 @@ Theorem count_index_refines121 s sub :
   wf s -> wf sub -> (forall c, sub = [c] -> 128 <= c) ->
   Count Index121 p s sub = Ok (count fold121 s sub).
 Proof. apply (count_refines_general fold121 Index121). intros; apply index_refines121; assumption. Qed.
+
+(* Count on every needle, the single-ASCII-byte kernel path included *)
+Theorem count_full_refines121 s sub :
+  wf s -> wf sub -> Count Index121 p s sub = Ok (count fold121 s sub).
+Proof.
+  apply (count_refines fold121).
+  - intros r0 x Hr Hx. apply ascii_cands_exact; assumption.
+  - intros s0 t Hs0 Ht. apply index_refines121; assumption.
+Qed.
 
 Theorem cut_index_refines121 s sep :
   wf s -> wf sep -> Cut Index121 p s sep = Ok (cut fold121 s sep).
